@@ -176,7 +176,7 @@ func ParseExecuteStatements(ctx context.Context, scope *ReferenceScope, expr par
 	}
 	stmtStr := value.ToString(stmt)
 	if !value.IsNull(stmtStr) {
-		input = stmt.(*value.String).Raw()
+		input = stmtStr.(*value.String).Raw()
 		value.Discard(stmtStr)
 	}
 
